@@ -380,20 +380,20 @@ class Body:
                 for i, st in enumerate(blk["st"]):
                     if st["s"] == "assign":
                         p = st["p"]
-                        if "*" not in p["pr"]:
+                        if not (p["pr"] and p["pr"][0] == "*"):
                             d[p["l"]].append(("full" if not p["pr"] else "partial", "stmt", b, i))
                         r = st["r"]
                         if r["k"] in ("ref", "rawptr") and (r.get("m") or r["k"] == "rawptr"):
                             rp = r["p"]
                             # a mutable borrow of (a place inside) a local that is not behind a deref
-                            if "*" not in rp["pr"]:
+                            if not (rp["pr"] and rp["pr"][0] == "*"):
                                 d[rp["l"]].append(("mutref", "stmt", b, i))
                     elif st["s"] == "setdiscr":
                         d[st["p"]["l"]].append(("partial", "stmt", b, i))
                 t = blk["term"]
                 if t["t"] == "call":
                     p = t["d"]
-                    if "*" not in p["pr"]:
+                    if not (p["pr"] and p["pr"][0] == "*"):
                         d[p["l"]].append(("full" if not p["pr"] else "partial", "call", b, len(blk["st"])))
             self._defs = d
         return self._defs
